@@ -56,7 +56,7 @@ def _design_level(ctx):
                [("Sim_DKG", "MC_DKG_%s_deep.cfg" % r) for r in ("member", "leaver")]
     per = max(2, core.NCPU // len(jobs))
     dirs = [ctx.sub(cfg.replace(".cfg", "")) for _, cfg in jobs]
-    tmo = 400 if ctx.quick else 1500
+    tmo = 400 if ctx.quick else 2400
 
     def one(i):
         return core.run_tlc(dirs[i], jobs[i][0], jobs[i][1], workers=per, timeout=tmo)
